@@ -1,10 +1,137 @@
 """C10 - header conditions see headers the way a mail reader does."""
+import concurrent.futures as cf
 import random
 import vlib
 import gen_msg
 import msgcommon as mc
+import proc
+import localeproc as lp
+import mbtext
 
 SPEC_OPS = {'hget', 'unfold'}
+
+
+def locale_stage(rep, sc, rng):
+    """Header conditions on the real binary under LC_ALL=C and LC_ALL=C.utf8 (tools/localeproc.py): a message is moved by a real
+    run, and listed by -d, iff the platform's regexec under that locale matches the pattern on the decoded value of a Subject
+    field (reference: `Spec.headerCands`/`firstNonNomatch` in the Lean driver run under the same LC_ALL)."""
+    tools = proc.Tools(sc)
+    fams = [f for f in lp.families(rng, rep.tier) if f.kind == 'header']
+    with cf.ThreadPoolExecutor(min(8, vlib.NCPU)) as ex:
+        list(ex.map(lambda f: lp.run_family(tools, f), fams))
+    st = {'configurations': len(fams), 'messages_each': len(fams[0].msgs) if fams else 0, 'decisions_compared': 0, 'matching': 0,
+          'locale_sensitive_decisions': 0, 'disagreements': 0}
+    refs = {l: lp.reference(fams, l) for l in mbtext.LOCALES}
+    bad = []
+    for fi, f in enumerate(fams):
+        for l in mbtext.LOCALES:
+            res = f.result[l]
+            for k, m in f.msgs:
+                ref = refs[l].get((fi, k))
+                if ref is None:
+                    st['no_reference_verdict'] = st.get('no_reference_verdict', 0) + 1
+                    if res['status'] != (0, 0) and k == f.msgs[0][0]:
+                        st.setdefault('rejected_patterns', []).append('%s under LC_ALL=%s: regcomp and mdsort both reject it' % (f.readable()['rule'], l))
+                    continue
+                if res['status'] != (0, 0):
+                    what = ['mdsort exits %r (-d) / %r (real run) on a configuration the platform regcomp accepts: %s' % (res['status'] + (res['stderr'],))]
+                else:
+                    listed, moved = k in res['dry'], k in res['moved']
+                    st['decisions_compared'] += 1
+                    st['matching'] += 1 if ref[0] else 0
+                    other = refs['C' if l != 'C' else 'C.utf8'].get((fi, k))
+                    if other is not None and other[0] != ref[0]:
+                        st['locale_sensitive_decisions'] += 1
+                    what = []
+                    if moved != ref[0]:
+                        what.append('real run under LC_ALL=%s %s the message; regexec under that locale on the decoded value %r says %s' %
+                                    (l, 'moves' if moved else 'does not move', ref[1] if ref[0] else '(see message)', 'match' if ref[0] else 'no match'))
+                    if listed != ref[0]:
+                        what.append('-d under LC_ALL=%s %s the message; regexec under that locale says %s' %
+                                    (l, 'lists' if listed else 'does not list', 'match' if ref[0] else 'no match'))
+                    if listed != moved:
+                        what.append('-d %s the message, the real run %s it (same locale)' % ('lists' if listed else 'does not list', 'moves' if moved else 'does not move'))
+                    if res['dry_changed_tree']:
+                        what.append('-d changed the tree')
+                if what:
+                    st['disagreements'] += 1
+                    bad.append((f, l, m, what))
+                    if res['status'] != (0, 0):
+                        break
+
+    def plain(x):
+        # well-formed UTF-8 pattern and message first: the easiest failing inputs to read
+        f, l, m, what = x
+        try:
+            f.patb.decode('utf-8'), m.decode('utf-8')
+            return (0, len(m))
+        except UnicodeDecodeError:
+            return (1, len(m))
+    for f, l, m, what in sorted(bad, key=plain)[:6]:
+        rep.finding('unlisted', dict(f.readable(), locale='LC_ALL=' + l, message=repr(m), what=what, stage='locale (real binary)',
+                                     reproduce='LC_ALL=%s mdsort [-d] -f conf with: maildir "src" { %s }' % (l, f.readable()['rule'])))
+    st['unit'] = locale_unit_stage(rep, sc, rng, fams, refs)
+    return st
+
+
+def locale_unit_stage(rep, sc, rng, fams, refs):
+    """The same rules through the real parser and evaluator in-process (harness h_expr, which selects the locale of its environment
+    like main() does) under both locales: result, recorded sub-match offsets and the interpolated capture compared with the Lean
+    model run under the same LC_ALL (correspondence) and with the reference verdict and offsets (failing input)."""
+    import evalcommon as ec
+    import os
+    h, env = ec.harness(sc)
+    st = {'evaluations': 0, 'matching': 0, 'sub_matches_compared': 0, 'correspondence_mismatches': 0, 'disagreements': 0}
+    corr, bad = [], []
+    for l in mbtext.LOCALES:
+        cases, keys = [], []
+        for fi, f in enumerate(fams):
+            for k, m in f.msgs:
+                if rep.tier == 'quick' and rng.random() < 0.5:
+                    continue
+                lu = rng.choice(['', '', 'l', 'u'])
+                src = f.patb.decode('latin-1')
+                conf = 'maildir "~/md" {\n\tmatch header "%s" /%s/%s move "~/dst/\\0"\n}\n' % (f.hname.decode('latin-1'), src, f.flags + lu)
+                c = ec.Case(conf, [(src, f.flags + lu)], m, 'new', '%d.host' % k, '0')
+                c.locale = l
+                cases.append(c)
+                keys.append((fi, k))
+        ec.run_cases(h, dict(env, LC_ALL=l), cases, want_spec=False, denv=dict(os.environ, LC_ALL=l))
+        st['evaluations'] += len(cases)
+        for c, key in zip(cases, keys):
+            if c.note == 'fault':
+                rep.finding('sanitizer-fault', dict(c.readable(), implementation=c.impl))
+                continue
+            ref = refs[l].get(key)
+            if c.model is None:
+                if ref is not None and not (c.impl or '').startswith('CONFERR'):
+                    bad.append((c, ['the harness gives no evaluation: %r' % (c.impl or '')[:80]]))
+                continue
+            if ec.impl_core(c) != ec.model_core(c):
+                corr.append(c)
+            if ref is None:
+                continue
+            e = c.impl.split(' ')
+            what = []
+            if (e[0] == 'MATCH') != ref[0]:
+                what.append('the evaluator says %s; regexec under LC_ALL=%s on the decoded value says %s' % (e[0], l, 'match' if ref[0] else 'no match'))
+            elif ref[0]:
+                hdr = [x for x in ec.parse_ml(e[1]) if x[0] == 'header']
+                subs = [None if t.split('/')[1] == '-' else (int(t.split('/')[1]), int(t.split('/')[2])) for t in hdr[0][6].split('+')] if hdr and hdr[0][6] else []
+                st['matching'] += 1
+                st['sub_matches_compared'] += len(subs)
+                if subs != ref[2]:
+                    what.append('recorded sub-matches %r, regexec gives %r on %r' % (subs, ref[2], ref[1]))
+            if what:
+                bad.append((c, what))
+    st['correspondence_mismatches'], st['disagreements'] = len(corr), len(bad)
+    for c, what in bad[:5]:
+        rep.finding('unlisted', dict(c.readable(), what=what, implementation=c.impl[:600], stage='locale (evaluator in-process)'))
+    if corr and not rep.violations:
+        rep.violation({'obligation': 'correspondence expr_eval_header/expr_regexec/match_copy <-> Model/Eval.lean under LC_ALL=C and C.utf8',
+                       'disagreements': len(corr),
+                       'examples': [dict(c.readable(), implementation=c.impl[:600], model=(c.model or '')[:600]) for c in corr[:4]]}, False)
+    return st
 
 
 def run(rep):
@@ -14,6 +141,9 @@ def run(rep):
     vlib.lean_gate(rep, 'C10', sc, [
         'POSIX regcomp/regexec (platform library) is outside the model: the theorems fix the value handed to it',
         'modelled, not verified: qsort stability, strcasecmp/isspace in the C locale',
+        'the call setlocale(LC_CTYPE, "") of main() is not part of the model: that the regex engine of a real run and of -d works in the '
+        'locale of the environment is observed on the real binary (LC_ALL=C and C.utf8, the only UTF-8 locale of this image) against the '
+        'platform regexec called under the same LC_ALL through the FFI',
     ])
     n = 8000 if rep.tier == 'quick' else 200000
     msgs = mc.messages(rng, n, wf_share=0.85)
@@ -27,23 +157,30 @@ def run(rep):
     d = vlib.Differential(rep, [h], env=env, spec_ops=SPEC_OPS, name='h_message')
     impl, model, spec = d.run(reqs)
     d.conclude('message.c (message_get_header, searchheader, unfoldheader) <-> Model/Header.lean')
+    lst = locale_stage(rep, sc, rng)
     vlib.lean_conclude(rep)
     nontriv = set(r for r, i, s in zip(reqs, impl, spec) if s is not None and r[0] == 'hget' and i.startswith('V'))
     multi = sum(1 for r, i in zip(reqs, impl) if r[0] == 'hget' and i.count(',') > 1)
     rep.coverage.update({
-        'evaluations': d.evals,
+        'evaluations': d.evals + 4 * lst['configurations'] + lst['unit']['evaluations'],
         'distinct_nontrivial': len(nontriv),
         'rule': '%d generated messages; 2 lookups each by a random name (any case) compared with the decoded logical values of the '
                 'line-based reading, 1 unfolding, 1 rewrite followed by a lookup; non-trivial = well-formed message and the field is '
-                'present; distinct by (name, message)' % n,
+                'present; distinct by (name, message); locale stage: %d single-rule configurations (`.`/intervals counting characters, bracket '
+                'expressions and classes with non-ASCII members, the i flag on non-ASCII letters, repeated multibyte characters) x %d messages '
+                '(raw 8-bit UTF-8 and Latin-1, B/Q encoded words, adjacent words cut inside a character, folded) on the real binary, real run '
+                'and -d, under LC_ALL=C and LC_ALL=C.utf8: moved = listed = the documented header condition with the platform regexec under '
+                'the same LC_ALL (Lean driver); the same rules through the real evaluator in-process under both locales against the model '
+                '(result, sub-match offsets, interpolated capture)' % (n, lst['configurations'], lst['messages_each']),
         'samples': [{'request': d.line(reqs[i])[:300], 'implementation': impl[i][:200], 'specification': (spec[i] or 'outside domain')[:200]}
                     for i in rng.sample(range(len(reqs)), 4)],
         'lookups_with_several_occurrences': multi,
+        'locale_stage': lst,
         'correspondence_mismatches': len(d.corr_mismatch),
         'spec_failures': len(d.spec_fail),
         'sanitizer_faults': len(d.faults),
     })
-    rep.assumptions += ['C locale / C.utf8', 'message well-formed in the sense of Spec.read for the specification side']
+    rep.assumptions += ['locales C and C.utf8 (no other locale is installed in this image)', 'message well-formed in the sense of Spec.read for the specification side']
 
 
 def replay(rep, path):
